@@ -157,6 +157,8 @@ type Sched struct {
 	// cooperative fault points: number of SQLITE_BUSY errors still to inject before COMMIT
 	CommitBusy      int
 	CommitBusyFired int
+	BusyAt          map[int]bool // (concurrent programs) ordinals of the commit attempts that fail with BUSY
+	commitAttempts  int
 	onPoint         func(name, detail string) // called when a task passes a point hook (after its release)
 }
 
@@ -331,6 +333,12 @@ func (s *Sched) faultHook(name string) error {
 	defer s.mu.Unlock()
 	if s.CommitBusy > 0 {
 		s.CommitBusy--
+		s.CommitBusyFired++
+		return sqlite3.Error{Code: sqlite3.ErrBusy}
+	}
+	// concurrent programs: the n-th commit attempt of the whole run fails (whoever makes it)
+	s.commitAttempts++
+	if s.BusyAt[s.commitAttempts] {
 		s.CommitBusyFired++
 		return sqlite3.Error{Code: sqlite3.ErrBusy}
 	}
